@@ -622,7 +622,7 @@ pub fn run(args: &Args) -> Report {
         "C14",
         &args.tier,
         args.seed,
-        "generated creation/request options (every optional member present/absent) rendered with each binary member as byte array / base64url +- padding / base64 +- padding, timeouts and algorithm ids as number / numeric string / integral float / float string, unknown members at every object level, unknown strings in every enumeration position and list; all byte strings of length 0..64 (patterns) and random ones up to 4 KiB through base64url; client data with struct / ordered-map extras and unknown members; credentials emitted by the client re-parsed; distinct by (document, presentation) resp. byte string resp. key order; non-trivial when the presentation differs from canonical or an optional member is present",
+        "generated creation/request options (every optional member present/absent) rendered with each binary member as byte array / base64url +- padding / base64 +- padding, timeouts and algorithm ids as number / numeric string / integral float / float string, unknown members at every object level, unknown strings in every enumeration position and list; byte strings of every length 0..520 (patterns and random) and random ones up to 4 KiB through base64url; client data with struct / ordered-map extras and unknown members; credentials emitted by the client re-parsed; distinct by (document, presentation) resp. byte string resp. key order; non-trivial when the presentation differs from canonical or an optional member is present",
     );
     rep.assumptions.push("an unknown type inside a descriptor keeps the entry with type unknown; only unknown list values are dropped; out-of-range floats and non-canonical numeric strings are not generated".into());
     let only = replay_index(args);
@@ -635,8 +635,11 @@ pub fn run(args: &Args) -> Report {
     // base64url identity: all lengths 0..=64 with patterns, plus random
     let mut rng = Rng::derive(args.seed, "c14b", 0);
     let mut k = 3_000_000u64;
-    for len in 0..=64usize {
+    for len in 0..=520usize {
         for pat in 0..4 {
+            if len > 64 && pat < 2 {
+                continue;
+            }
             let b: Vec<u8> = match pat {
                 0 => vec![0x00; len],
                 1 => vec![0xFF; len],
